@@ -32,6 +32,12 @@ def run_table(tier, seed):
                             sc = G.scalings_of(spec, (0, 1))[k % 2]
                             k += 1
                             out.append({"t": "run", "spec": spec, "cfg": c, "sc": sc, "fault": fault})
+    for spec in specs[:4]:
+        for vi in range(len(G.PARAM_VARIANTS)):
+            for control in G.R.CONTROLS:
+                for fault in (None, 3):
+                    out.append({"t": "run", "spec": spec, "cfg": {"control": control, "newton": "Simplified", "step_solver": "Symmetric", "iteration_limit": 60,
+                                                                 "params": {"lamb_max": 1e12}, "pv": vi}, "sc": None, "fault": fault})
     return out
 
 
@@ -47,15 +53,17 @@ def run_case(case):
     lf = None
     if case.get("fault"):
         lf = FaultLinear(fail_factor=range(case["fault"], 400, case["fault"]))
+    case = G.with_variant(case)
     ctx = G.execute(case, linear_faults=lf)
     if ctx.setup_error is not None:
         return {"outcome": "setup:" + type(ctx.setup_error).__name__, "key": None, "violations": [], "stats": {}}
-    # the one-step comparison applies to the plain (non-globalized) Newton variants with a direct linear solver
+    # the one-step comparison applies to the plain (non-globalized) Newton variants with a direct linear solver and the default active-set
+    # rule (a user-supplied tau rule selects another, equally admissible, active set than the reference)
     viol = M.mon_c15(ctx.rec, ctx.F, ctx.weights, ctx.params, case["cfg"]["control"],
-                     fixed_check=case["cfg"]["newton"] != "Globalized")
+                     fixed_check=case["cfg"]["newton"] != "Globalized" and "active_set_method" not in case["cfg"]["params"])
     rej = sum(1 for t in ctx.rec.trials if not t.accepted)
     return {"outcome": outcome_of(ctx.rec),
-            "key": f"{case['spec']['tag']}|{G.cfg_key(case['cfg'])}|{case['cfg']['params']['lamb_max']}|{case.get('fault')}" if rej else None,
+            "key": f"{case['spec']['tag']}|{G.cfg_key(case['cfg'])}|{sorted((k, str(v)[:12]) for k, v in case['cfg']['params'].items())}|{case.get('fault')}" if rej else None,
             "violations": viol, "stats": {"run": 1, "trials": len(ctx.rec.trials), "rejected": rej,
                                          "exact_accepted": sum(1 for t in ctx.rec.trials if t.accepted) if case["cfg"]["control"] == "Exact" else 0}}
 
